@@ -28,7 +28,7 @@
                              f8 IDFromBytes(id.Marshal()) = id, UnmarshalText/JSON round trip
    6 mode nkeys {kt <raw> <canon> <digest> <goid>}* nseals {kidx <dom> <pt> <pl> <sig>}*
      <envbytes> <domasked>  h_ok h_kt <h_kd> kdec  um_ok <um_pt> <um_pl>
-     res <acc_signer> <acc_pt> <acc_pl>  pr_res <rec_id>
+     res <acc_signer> <acc_pt> <acc_pl> <acc_id>  pr_res <rec_id>
                              one consumption attempt of a (mutated) envelope; see below
    7 same_key <msg> <sig> <msg2> <sig2> res
                              Verify(key2, msg2, sig2) where sig = Sign(key1, msg);
@@ -39,6 +39,16 @@
                              rt = 1 iff the accepted key survives Marshal/Unmarshal
    9 <text> res <id>         peer.Decode(text): res 1 accepted with id
    10 <bytes> cast_ok ex     IDFromBytes ok?; ExtractPublicKey: 0 key, 1 ErrNoPublicKey, 2 error
+   11 kt <raw> <canon> <goid> <edited> cls eq <remarsh> <id2>
+                             a non-canonical serialization [edited] of the key whose Raw() is raw,
+                             MarshalPublicKey canon and IDFromPublicKey goid: cls as in kind 8; when
+                             accepted: eq = parsed.Equals(original) (both ways), remarsh =
+                             MarshalPublicKey(parsed), id2 = IDFromPublicKey(parsed)
+   12 <canon> <digest> <goid> <probe> matches
+                             peer.ID(probe).MatchesPublicKey(pk)
+   13 bits priv cls rt       an RSA key whose modulus has exactly [bits] bits, unmarshalled as a
+                             public (priv = 0) or private (priv = 1) key: cls 3 accepted, else
+                             rejected; rt = 1 iff it then survives Marshal/Unmarshal unchanged
 
    Kind 6 in detail.  The key table lists every key of the case (canon =
    MarshalPublicKey(pk), goid = IDFromPublicKey(pk) as computed by Go), the seal
@@ -51,7 +61,8 @@
    of ConsumeEnvelope / ConsumeTypedEnvelope(domasked): 0 "failed when
    unmarshalling", 1 accepted, 2 "failed to validate", 3 validated but the
    payload did not unmarshal as a record, 4 other; when accepted, acc_* are the
-   returned envelope's MarshalPublicKey(PublicKey), PayloadType, RawPayload.
+   returned envelope's MarshalPublicKey(PublicKey), PayloadType, RawPayload and
+   IDFromPublicKey(PublicKey).
    mode 2/3: the accepted envelope was then given to pstoremem / pstoreds
    ConsumePeerRecord: pr_res 0 not attempted, 1 accepted, 2 rejected, and rec_id
    = the decoded record's PeerID.
@@ -60,7 +71,10 @@
    kind 6: accepted => some seal event of the case has exactly the accepted
    (signer, domain asked, payload type, payload); the signature bytes are not
    content.  Peerstore accepted => the record's peer ID is the ID of the
-   signing key.  kind 7: verified => the signer's key and the signed message;
+   signing key, byte for byte.  kind 11: equal keys have equal IDs.  kind 12:
+   MatchesPublicKey iff the ID is IDFromPublicKey(pk).  kind 13: every RSA size
+   that can be generated ([MinRsaKeyBits, maxRsaKeyBits]) unmarshals and round-trips.
+   kind 7: verified => the signer's key and the signed message;
    the untouched triple verifies.  kind 5: the round trips.  kinds 3/4:
    reading the pre-image back gives exactly the triple; equal pre-images only
    for equal triples.  kind 1: the prefix decodes to the value. *)
@@ -111,6 +125,7 @@ Fixpoint first_fail (checks : list (bool * Z)) (mk : Z -> list Z) : list Z :=
   end.
 
 Definition max_inline : N := Z.to_N maxInlineKeyLength.
+Definition rsa_ok (bits : Z) : bool := rsa_size_ok (Z.to_N minRsaKeyBits) (Z.to_N maxRsaKeyBits) (Z.to_N bits).
 
 (* ---- kind 1/2: varints ------------------------------------------------------ *)
 Definition dec_obs := (Z * N * Z)%type.   (* ok, value, consumed *)
@@ -182,7 +197,7 @@ Record case6 := mkCase6 {
   c_env : bytes; c_dom : bytes;
   c_hok : Z; c_hkt : Z; c_hkd : bytes; c_kdec : Z;
   c_umok : Z; c_umpt : bytes; c_umpl : bytes;
-  c_res : Z; c_asigner : bytes; c_apt : bytes; c_apl : bytes;
+  c_res : Z; c_asigner : bytes; c_apt : bytes; c_apl : bytes; c_aid : bytes;
   c_prres : Z; c_recid : bytes }.
 
 Definition small_count (z : Z) : bool := (0 <=? z) && (z <=? 64).
@@ -200,10 +215,11 @@ Definition decode6 (l : list Z) : option case6 :=
   do (kdec, r10) <- get_z r9;
   do (umok, r11) <- get_z r10; do (umpt, r12) <- get_bytes r11; do (umpl, r13) <- get_bytes r12;
   do (res, r14) <- get_z r13;
-  do (asg, r15) <- get_bytes r14; do (apt, r16) <- get_bytes r15; do (apl, r17) <- get_bytes r16;
+  do (asg, r15) <- get_bytes r14; do (apt, r16) <- get_bytes r15; do (apl, r17a) <- get_bytes r16;
+  do (aid, r17) <- get_bytes r17a;
   do (prres, r18) <- get_z r17; do (recid, r19) <- get_bytes r18;
   match r19 with
-  | [] => Some (mkCase6 mode keys seals env dom hok hkt hkd kdec umok umpt umpl res asg apt apl prres recid)
+  | [] => Some (mkCase6 mode keys seals env dom hok hkt hkd kdec umok umpt umpl res asg apt apl aid prres recid)
   | _ => None
   end.
 
@@ -250,7 +266,7 @@ Definition conform6 (c : case6) : list Z :=
   let acc_matches (k : Z) (pt pl : bytes) :=
     beq pt (c_apt c) && beq pl (c_apl c) &&
     match key_at (c_keys c) k with
-    | Some kr => beq (k_canon kr) (c_asigner c)
+    | Some kr => beq (k_canon kr) (c_asigner c) && beq (k_goid kr) (c_aid c)
     | None => k =? -2          (* a key outside the table: nothing to compare with *)
     end in
   let consume_ok :=
@@ -285,11 +301,12 @@ Definition conform6 (c : case6) : list Z :=
   first_fail [ (keys_ok, 60); (seals_ok, 69); (proto_ok, 61); (um_ok, 62); (consume_ok, 64); (pr_ok, 67) ] mism.
 
 (* some seal event of the case has exactly the accepted (signer, domain asked,
-   payload type, payload) *)
+   payload type, payload); the accepted key re-marshals to the signer's canonical
+   bytes and has the signer's ID *)
 Definition sealed_as_accepted (c : case6) : bool :=
   existsb (fun sl =>
              match key_at (c_keys c) (s_kidx sl) with
-             | Some kr => beq (k_canon kr) (c_asigner c)
+             | Some kr => beq (k_canon kr) (c_asigner c) && beq (k_goid kr) (c_aid c)
              | None => false
              end
              && beq (s_dom sl) (c_dom c) && beq (s_pt sl) (c_apt c) && beq (s_pl sl) (c_apl c))
@@ -411,6 +428,35 @@ Definition conform_case (l : list Z) : list Z :=
                end, 102) ] mism
       | None => malformed 10
       end
+  | 11 :: r =>
+      match (do (kt, r0) <- get_z r;
+             do (raw, r1) <- get_bytes r0; do (canon, r2) <- get_bytes r1; do (goid, r3) <- get_bytes r2;
+             do (ed, r4) <- get_bytes r3; do (cls, r5) <- get_z r4; do (eq, r6) <- get_z r5;
+             do (rem, r7) <- get_bytes r6; do (id2, r8) <- get_bytes r7;
+             match r8 with [] => Some (kt, raw, canon, goid, (ed, cls, eq, rem, id2)) | _ => None end) with
+      | Some (kt, raw, canon, goid, (ed, cls, eq, rem, id2)) =>
+          match parse_pubkey ed with
+          | Some (t, d) =>
+              (* the same (type, data): the same key, whose marshalled form and ID are
+                 functions of the key alone *)
+              if N.eqb t (Z.to_N kt) && beq d raw
+              then first_fail [ ((cls =? 3) && (eq =? 1), 111); (beq rem canon, 112); (beq id2 goid, 113) ] mism
+              else []
+          | None => if cls =? 0 then [] else mism 114
+          end
+      | None => malformed 11
+      end
+  | 12 :: r =>
+      match (do (canon, r1) <- get_bytes r; do (dg, r2) <- get_bytes r1; do (goid, r3) <- get_bytes r2;
+             do (probe, r4) <- get_bytes r3;
+             match r4 with [m] => Some (canon, dg, goid, probe, m) | _ => None end) with
+      | Some (canon, dg, goid, probe, m) =>
+          first_fail [ (beq (id_of_key max_inline canon dg) goid, 120);
+                       (Bool.eqb (m =? 1) (beq probe (id_of_key max_inline canon dg)), 121) ] mism
+      | None => malformed 12
+      end
+  | [13; bits; priv; cls; rt] =>
+      if Bool.eqb (cls =? 3) (rsa_ok bits) then [] else mism 131
   | _ => malformed 0
   end.
 
@@ -487,5 +533,31 @@ Definition monitor_case (l : list Z) : list Z :=
       end
   | 9 :: _ => []
   | 10 :: _ => []
+  | 11 :: r =>
+      match (do (kt, r0) <- get_z r;
+             do (raw, r1) <- get_bytes r0; do (canon, r2) <- get_bytes r1; do (goid, r3) <- get_bytes r2;
+             do (ed, r4) <- get_bytes r3; do (cls, r5) <- get_z r4; do (eq, r6) <- get_z r5;
+             do (rem, r7) <- get_bytes r6; do (id2, r8) <- get_bytes r7;
+             match r8 with [] => Some (canon, goid, cls, eq, (rem, id2)) | _ => None end) with
+      | Some (canon, goid, cls, eq, (rem, id2)) =>
+          (* the peer ID is a function of the public key: an equal key has the same ID
+             (and the same marshalled form, from which the ID is computed) *)
+          if (cls =? 3) && (eq =? 1)
+          then first_fail [ (beq id2 goid, 111); (beq rem canon, 112) ] viol
+          else []
+      | None => malformed 11
+      end
+  | 12 :: r =>
+      match (do (canon, r1) <- get_bytes r; do (dg, r2) <- get_bytes r1; do (goid, r3) <- get_bytes r2;
+             do (probe, r4) <- get_bytes r3;
+             match r4 with [m] => Some (goid, probe, m) | _ => None end) with
+      | Some (goid, probe, m) =>
+          (* an ID matches a key iff it is that key's ID, byte for byte *)
+          if Bool.eqb (m =? 1) (beq probe goid) then [] else viol 121
+      | None => malformed 12
+      end
+  | [13; bits; priv; cls; rt] =>
+      (* every size that can be generated unmarshals and round-trips *)
+      if rsa_ok bits && negb ((cls =? 3) && (rt =? 1)) then viol 131 else []
   | _ => malformed 0
   end.
